@@ -97,6 +97,16 @@ def run(ctx):
         if k not in seen and j["nviol"] <= 1:
             seen.add(k)
             cases.append(j)
+    rt = ctx.tlc("MC_HedRules", "MC_HedRules_tl.cfg", workers=1, label="<= 2 steps from the Delay / Duration constructs, second tags "
+                 "of the same name with another value", timeout=3000)
+    ntl = 0
+    for j in rt.json_lines:
+        k = json.dumps([j["par"], j["kind"]])
+        if k not in seen and j["nviol"] <= 1:
+            seen.add(k)
+            cases.append(j)
+            ntl += 1
+    ctx.note("delay_duration_neighbourhood_trees", ntl)
     versions = [v for v, _ in facts.bundled()]
     jobs = []
     CH = 2000
